@@ -236,6 +236,7 @@ func degenerateKeys() []crypto.PublicKey {
 		(*rsa.PublicKey)(nil), &rsa.PublicKey{}, &rsa.PublicKey{E: 65537}, &rsa.PublicKey{N: big.NewInt(15), E: 3},
 		ed25519.PublicKey(nil), ed25519.PublicKey{1, 2}, "not a key", 7,
 		// private keys that carry nothing either (an API that also accepts the private half must survive these)
+		&ecdsa.PublicKey{Curve: (*elliptic.CurveParams)(nil), X: big.NewInt(1), Y: big.NewInt(1)}, &ecdsa.PublicKey{Curve: noParamsCurve{}, X: big.NewInt(1), Y: big.NewInt(1)},
 		ed25519.PrivateKey(nil), ed25519.PrivateKey{1, 2, 3}, (*ecdsa.PrivateKey)(nil), &ecdsa.PrivateKey{}, (*rsa.PrivateKey)(nil), &rsa.PrivateKey{},
 	}
 }
@@ -251,3 +252,14 @@ func rawSignDER(k *fixtures.Key, alg string, prot, payload []byte) []byte {
 	return sig
 }
 
+// noParamsCurve is an elliptic.Curve without a parameter block.
+type noParamsCurve struct{}
+
+func (noParamsCurve) Params() *elliptic.CurveParams                           { return nil }
+func (noParamsCurve) IsOnCurve(x, y *big.Int) bool                            { return false }
+func (noParamsCurve) Add(x1, y1, x2, y2 *big.Int) (*big.Int, *big.Int)        { return x1, y1 }
+func (noParamsCurve) Double(x1, y1 *big.Int) (*big.Int, *big.Int)             { return x1, y1 }
+func (noParamsCurve) ScalarMult(x, y *big.Int, k []byte) (*big.Int, *big.Int) { return x, y }
+func (noParamsCurve) ScalarBaseMult(k []byte) (*big.Int, *big.Int) {
+	return big.NewInt(0), big.NewInt(0)
+}
